@@ -27,6 +27,12 @@ pub struct Align32(pub u8);
 pub struct Align64(pub u8);
 #[repr(align(64))]
 pub struct ZAlign64;
+#[repr(align(128))]
+pub struct Align128(pub u8);
+#[repr(align(4096))]
+pub struct Align4096(pub u16);
+#[repr(align(256))]
+pub struct ZAlign256;
 /// a field-less enum with the default representation
 pub enum Enum3 {
     A,
@@ -53,6 +59,7 @@ pub fn type_layouts() -> Vec<(&'static str, u64, u64)> {
         t::<[u8; 3]>("b3"), t::<[u8; 24]>("b24"), t::<[u64; 8]>("w64x8"), t::<(u8, u16)>("t_u8_u16"), t::<(u8, u32, u8)>("t_u8_u32_u8"), t::<(u64, u8)>("t_u64_u8"),
         t::<Packed5>("packed5"), t::<Align16>("align16"), t::<Align32>("align32"), t::<Align64>("align64"),
         t::<()>("unit"), t::<[u64; 0]>("zarr_u64"), t::<ZAlign64>("zalign64"), t::<[u16; 0]>("zarr_u16"),
+        t::<Align128>("align128"), t::<Align4096>("align4096"), t::<ZAlign256>("zalign256"),
         t::<GenericArray<u8, U3>>("ga_u8_3"), t::<GenericArray<u32, U5>>("ga_u32_5"), t::<GenericArray<(), U7>>("ga_unit_7"), t::<GenericArray<GenericArray<u16, U2>, U3>>("ga_ga"),
         t::<Option<u8>>("opt_u8"), t::<Option<u16>>("opt_u16"), t::<Option<bool>>("opt_bool"), t::<Result<u8, u8>>("res_u8"), t::<Enum3>("enum3"), t::<core::cmp::Ordering>("ordering"),
         t::<core::mem::MaybeUninit<u32>>("mu_u32"), t::<String>("string"), t::<Option<Box<u8>>>("optbox"), t::<usize>("usize"),
